@@ -70,7 +70,7 @@ func c01Check(x *cpuCtx, c *cpuCase) (out []c01Finding, nontrivial bool) {
 func replayC01(raw json.RawMessage) (string, error) {
 	var pp progPath
 	if json.Unmarshal(raw, &pp) == nil && len(pp.Syms) > 0 {
-		return progReplay(pp, progSeeds(false), progAlphabet(false), true, c01ProgOracle)
+		return progReplay(pp, progSeeds(false), progAlphabet(true), true, c01ProgOracle)
 	}
 	var c cpuCase
 	if err := json.Unmarshal(raw, &c); err != nil {
